@@ -25,16 +25,16 @@ type Need struct {
 }
 
 type Site struct {
-	Kind  string // index | slice | slicehi | put | get | order
-	Buf   string // buffer name ("P" for the input)
+	Kind   string // index | slice | slicehi | put | get | order
+	Buf    string // buffer name ("P" for the input)
 	Origin string
-	Needs []Need
-	Facts []Fact
-	Pos   token.Pos
-	Text  string
-	Fn    string
-	Guard string
-	Expr  ast.Expr
+	Needs  []Need
+	Facts  []Fact
+	Pos    token.Pos
+	Text   string
+	Fn     string
+	Guard  string
+	Expr   ast.Expr
 }
 
 func (in *Interp) addSite(s *Site) {
